@@ -55,6 +55,7 @@ type c02ApplyGate struct {
 func init() {
 	c02FamilyCfg["F9"] = func(cfg *Config) { cfg.Clustering.ReplicaMaxLagTime = 4 * time.Second }
 	c02FamilyCfg["F8"] = func(cfg *Config) { cfg.Clustering.ReplicaMaxLagTime = 3 * time.Second }
+	c02FamilyCfg["F11"] = func(cfg *Config) { cfg.Clustering.ReplicaMaxLagTime = 10 * time.Second }
 }
 
 func on0(e *c02Env) func(name string, fn vfHookFn) {
@@ -486,6 +487,67 @@ func c02F10(e *c02Env, rng *kit.RNG) {
 	if e.restart(nl0.ID) {
 		e.publish(2, client.AckPolicy_ALL, 40*time.Second)
 		e.settle("f10-old-leader-rejoined")
+	}
+}
+
+// F11: both followers have RECEIVED a batch from the leader but not stored it
+// (their answers are held at the follower.afterFetch gate) when the leader
+// dies; the controller makes one of them leader, and the held answers of the
+// dead leader are then dropped by the epoch fence.  An ALL-policy message of
+// that batch must not have been acknowledged: it exists on no survivor.
+func c02F11(e *c02Env, rng *kit.RNG) {
+	l := e.leader()
+	if l == nil {
+		return
+	}
+	if !e.publishAcked(rng.Range(2, 3), client.AckPolicy_ALL, 30*time.Second) {
+		e.inconclusive("initial publishes not acked")
+		return
+	}
+	e.settle("f11-initial")
+	fol := c02Others(e.c, l.ID)
+	x, y := fol[0], fol[1]
+	if rng.Bool() {
+		x, y = y, x
+	}
+	lp := l.Partition(e.stream, 0)
+	_, epoch := lp.GetLeader()
+	gx := e.holdResponse(x, epoch)
+	gy := e.holdResponse(y, epoch)
+	msgs := e.publish(rng.Range(1, 2), client.AckPolicy_ALL, 4*time.Second)
+	for _, g := range []*c02RespGate{gx, gy} {
+		select {
+		case <-g.caught:
+		case <-time.After(15 * time.Second):
+			e.inconclusive("a follower never received the batch")
+			return
+		}
+	}
+	acked := e.allAcked(msgs)
+	e.step("ALL publish acknowledged while both followers had only RECEIVED the batch: %v", acked)
+	if lp.ISRSize() != 3 {
+		e.inconclusive("ISR shrank before the leader died")
+		return
+	}
+	e.stop(l.ID)
+	if !e.changeLeader(x) || !e.waitLeads(x) || !e.waitFollows(y, x) {
+		return
+	}
+	e.mu.Lock()
+	e.f11Reached = true
+	e.mu.Unlock()
+	e.releaseResponse(x)
+	e.releaseResponse(y)
+	time.Sleep(150 * time.Millisecond)
+	e.checkLeaderComplete("f11-after-failover")
+	if !e.publishAcked(rng.Range(1, 2), client.AckPolicy_ALL, 45*time.Second) {
+		e.inconclusive("publishes at the new leader not acked")
+		return
+	}
+	e.settle("f11-new-leader")
+	if e.restart(l.ID) {
+		e.publish(2, client.AckPolicy_ALL, 40*time.Second)
+		e.settle("f11-old-leader-rejoined")
 	}
 }
 
